@@ -177,6 +177,12 @@ def vectorise_rows(t, lv, n, shp, column=False):
             sh = shp(x)
             if sh is not None and (len(sh) == 1 or (len(sh) == 2 and any(d.is_const() and d.c == 1 for d in sh))):
                 r = rec(x.args[0])
+        elif x.op == "matmul" and len(x.args) == 2 and not mentions(x.args[1], lv):
+            # (row_j @ M) for an invariant matrix M: the rows of R @ M
+            msh = shp(x.args[1])
+            left = rec(x.args[0])
+            if left is not None and ((msh is not None and len(msh) == 2) or (isinstance(x.args[1], Term) and x.args[1].op == "dg")):
+                r = T("matmul", left, x.args[1])
         elif x.op in ELEMENTWISE:
             parts = [rec(a) if isinstance(a, Term) else a for a in x.args]
             r = None if any(p is None for p in parts) else T(x.op, *parts)
